@@ -149,7 +149,7 @@ func (env *evalEnv) resolveType(name string) (string, types.Type) {
 	if strings.HasPrefix(n, "*") {
 		ptr = true
 		n = n[1:]
-		if strings.HasPrefix(n, "*") {
+		if strings.HasPrefix(n, "*") || strings.HasPrefix(n, "[]") || strings.HasPrefix(n, "map[") || types.Universe.Lookup(n) != nil {
 			_, inner := env.resolveType(n)
 			if inner == nil {
 				evalFail("cannot resolve %q", name)
@@ -210,6 +210,12 @@ func (env *evalEnv) eval(e Expr) cval {
 		case "*":
 			v := env.eval(x.X)
 			if v.lv != nil {
+				if pt, ok := derefType(v.typ); ok && fx.sortOf(pt) != v.lv.elemSort {
+					// a view of the pointer at a type it does not have (a branch
+					// guarded by typeis that cannot be taken): an arbitrary value
+					srt := fx.sortOf(pt)
+					return cval{t: fx.freshConst("mistyped", srt), sort: srt, typ: pt}
+				}
 				t := env.loadLV(v.lv)
 				return cval{t: t, sort: v.lv.elemSort, typ: v.lv.typ}
 			}
@@ -698,7 +704,11 @@ func (env *evalEnv) evalCall(x *ECall) cval {
 		argn(2)
 		v := env.eval(x.Args[0])
 		srt, t := env.resolveType(typeArg(x.Args[1]))
-		return cval{t: fx.unbox(srt, "(ival "+v.t+")"), sort: srt, typ: t}
+		out := cval{t: fx.unbox(srt, "(ival "+v.t+")"), sort: srt, typ: t}
+		if _, isPtr := derefType(t); isPtr {
+			out.lv = v.lv // the same pointer: keep what is known about its target
+		}
+		return out
 	case "boxof":
 		// boxof(value, TypeName): the interface holding value with that dynamic type
 		argn(2)
